@@ -580,6 +580,7 @@ pub fn run(op: &str, a: &Args) -> Option<Outcome> {
         ["xpath", rest @ ..] => crate::ops_more::xpath_op(rest, a),
         ["ctx", "script"] => Some(crate::ops_more::ctx_script(arg(a, "script"))),
         ["dom", "order_keys"] => Some(crate::ops_more::dom_order_keys(arg(a, "doc"))),
+        ["dom", "tree_atomic"] => Some(crate::ops_more::dom_tree_atomic(arg(a, "scenario"))),
         _ => None,
     }
 }
@@ -729,6 +730,11 @@ pub fn grid(op: &str, limit: usize) -> (usize, Vec<(Args, Outcome)>) {
         ["ctx", "script"] => {
             for s in crate::ops_more::ctx_scripts() {
                 try_one(mk(&[("script", s.as_str())]), &mut n, &mut bad);
+            }
+        }
+        ["dom", "tree_atomic"] => {
+            for sc in crate::ops_more::TREE_SCENARIOS {
+                try_one(mk(&[("scenario", sc)]), &mut n, &mut bad);
             }
         }
         ["dom", "order_keys"] => {
